@@ -1005,12 +1005,10 @@ class t2data(object):
     def write_incons(self, outfile):
         if self.incon:
             outfile.write('INCON\n')
-            for blk in self.grid.blocklist:
-                blkname = blk.name
-                try:
-                    inc = self.incon[blkname]
-                except:
-                    continue
+            blknames = [blk.name for blk in self.grid.blocklist if blk.name in self.incon] + \
+                       [name for name in self.incon if name not in self.grid.block]
+            for blkname in blknames:
+                inc = self.incon[blkname]
                 if len(inc) >= 4: nseq, nadd = inc[2], inc[3]
                 else: nseq, nadd = None, None
                 vals = [unfix_blockname(blkname), nseq, nadd, inc[0]]
